@@ -20,11 +20,15 @@ const UnknownField = "nope"
 
 var ProbeFields = append(append([]string{}, FieldVocab...), UnknownField, "")
 
+// terms whose length sits on / beyond the one-byte varint boundary
+var term128 = strings.Repeat("q", 128)
+var term300 = strings.Repeat("r", 300)
+
 const longTerm = "zzzzzzzzzzzzzzzzzzzzzzzzzzzzzzzzzzzzzzzzzzzzzzzzzzzzzzzzzzzzzzzzzzzzzzz-long"
 
 // TermVocab: empty, binary, 0xfe-tailed, 0xff-containing (index 6; never used
 // in doc-value fields), long.
-var TermVocab = []string{"", "\x00", "a", "ab", "b", "x\xfe", "k\xffz", "m", longTerm, "\xfe\xfe"}
+var TermVocab = []string{"", "\x00", "a", "ab", "b", "x\xfe", "k\xffz", "m", longTerm, "\xfe\xfe", term128, term300}
 
 const ffTermIdx = 6
 
@@ -83,6 +87,9 @@ func genValue(t *rapid.T) string {
 		return "\x00\xff\x00"
 	case 4:
 		return strings.Repeat("ab", rapid.IntRange(1, 40).Draw(t, "valRep"))
+	case 6:
+		// lengths on the varint boundaries of the stored meta data
+		return strings.Repeat("w", rapid.SampledFrom([]int{127, 128, 129, 255, 256}).Draw(t, "valBoundaryLen"))
 	default:
 		return rapid.StringOfN(rapid.RuneFrom([]rune("abcxyz019 ")), 0, 12, -1).Draw(t, "val")
 	}
@@ -138,7 +145,7 @@ func genField(t *rapid.T, sc *Scenario, allowed []string) Field {
 			}
 			tm.Locs = append(tm.Locs, l)
 		}
-		tm.Freq = nl + rapid.SampledFrom([]int{0, 0, 1, 2, 70}).Draw(t, "extraFreq")
+		tm.Freq = nl + rapid.SampledFrom([]int{0, 0, 0, 1, 1, 2, 63, 64, 70, 8191, 8192}).Draw(t, "extraFreq")
 		if tm.Freq < 1 {
 			tm.Freq = 1
 		}
@@ -156,11 +163,11 @@ func genField(t *rapid.T, sc *Scenario, allowed []string) Field {
 	return f
 }
 
-// GenBatchManyFields draws a small batch over 130..300 field names, so that
+// GenBatchManyFields draws a small batch over 62..300 field names (around 64, around 128, beyond), so that
 // field ids need two-byte varints in the location streams and in the stored
 // meta data; locations name high-numbered fields.
 func GenBatchManyFields(t *rapid.T, sc *Scenario) Batch {
-	nNames := rapid.IntRange(130, 300).Draw(t, "nFieldNames")
+	nNames := rapid.SampledFrom([]int{62, 63, 64, 65, 126, 127, 128, 129, 130, 200, 300}).Draw(t, "nFieldNames")
 	names := make([]string, nNames)
 	for i := range names {
 		names[i] = fmt.Sprintf("f%03d", i)
